@@ -89,7 +89,7 @@ def gen_tasks(tier, seed):
                 tasks.append({"name": name, "cls": cls, "edges": ed, "kwargs": kw, "vec": vec})
     digs = I.digraphs(tier, rng, quick_n=2, thorough_n=8)
     if tier == "quick":
-        digs = [d for d in digs if d[0] in ("two_cycle", "nested", "parallel_inter_scc", "loop_and_cycle", "entry_two_returns")] + digs[-2:]
+        digs = [d for d in digs if d[0] in ("two_cycle", "nested", "parallel_inter_scc", "loop_and_cycle", "entry_two_returns", "two_entries_cycle_exit")] + digs[-2:]
     for name, es in digs:
         wf = I.walk_flow(es, rng, weights=(1, 2), max_walks=2)
         if wf is None or max(wf[0].values()) > 4:
